@@ -121,6 +121,17 @@ Proof.
   intros n ab mp tr ops o i Hi. apply (commit_step_monotone (cluster n ab mp tr) gen_rules); auto; gen_hyps n.
 Qed.
 
+(* LEADER APPEND-ONLY: while a node is leader of one term it never removes or rewrites an entry of its own log. *)
+Theorem C01_leader_append_only : forall n ab mp tr ops1 ops2 i, i < n ->
+  let s1 := grun (cluster n ab mp tr) gen_rules ops1 in
+  let s2 := grun (cluster n ab mp tr) gen_rules (ops1 ++ ops2) in
+  rl (nth_node (nodes s1) i) = Leader -> rl (nth_node (nodes s2) i) = Leader ->
+  term (nth_node (nodes s1) i) = term (nth_node (nodes s2) i) ->
+  firstn (length (log (nth_node (nodes s1) i))) (log (nth_node (nodes s2) i)) = log (nth_node (nodes s1) i).
+Proof.
+  intros n ab mp tr ops1 ops2 i Hi. apply (leader_append_only (cluster n ab mp tr) gen_rules); auto; gen_hyps n.
+Qed.
+
 (* LOG COMPACTION stays inside the committed prefix: in every reachable state, what a node has dropped from the
    front of its log (finalize_to + create_snapshot + truncate_log, in any order, any number of times, on any
    node) it had committed.  Together with C01_state_machine_safety (whose schedules include those steps) this
@@ -177,3 +188,4 @@ Print Assumptions C01_compaction_within_commit.
 Print Assumptions C01_array_last_is_log_last.
 Print Assumptions C01_terms_never_decrease.
 Print Assumptions C01_commit_step_monotone.
+Print Assumptions C01_leader_append_only.
